@@ -82,6 +82,14 @@ def c11(tier):
         {'rc', 'file', 'row.gen', 'row.ovr', 'ran'},
         bounds(tier, (4, 3), (6, 4)), sample_n=None if tier == 'thorough' else 100,
         note='files changing role between source and target; NoTrample: no redo step changes a user-owned file')
+    # hook-free: the system calls of the redo processes (strace) against TraceFs: no rename onto / unlink of / write into
+    # a file the user owns
+    import fscheck
+    fcov, fte = fscheck.run_fs('C11', tier, family, v, common.build_redo(), per_prog=8 if tier == 'quick' else 80)
+    cov.update(fcov)
+    cov['traces_validated_against_impl'] += fcov['fsop_traces_accepted']
+    te += fte
+    wall += fcov['fsop_wall_s']
     return finish('C11', tier, v, cov, te, wall)
 
 
@@ -105,6 +113,13 @@ def c04(tier):
         pads=(1, 65536, 4194304) if tier == 'thorough' else (1, 65536, 1048576), watch=True,
         note='one target whose rule versions cover stdout / $3 / nothing / both / direct write to $1, exit 0, '
              'non-zero and death by SIGKILL, over prior states absent / generated / hand-written')
+    # hook-free: the system calls of the redo processes (strace) against TraceFs
+    import fscheck
+    fcov, fte = fscheck.run_fs('C04', tier, family, v, common.build_redo(), per_prog=3 if tier == 'quick' else 40)
+    cov.update(fcov)
+    cov['traces_validated_against_impl'] += fcov['fsop_traces_accepted']
+    te += fte
+    wall += fcov['fsop_wall_s']
     return finish('C04', tier, v, cov, te, wall)
 
 
